@@ -945,6 +945,7 @@ func runMap(data json.RawMessage) vh.Verdict {
 		}
 		return k*10 + 1, nil
 	}
+	fs["verif-warm"] = func(_ *api.Context, v interface{}) (interface{}, error) { return v, nil }
 	fs["verif-input"] = func(_ *api.Context) (b6.Collection[any, any], error) {
 		return b6.Collection[any, any]{AnyCollection: &inputCollection{n: c.NI, p: p, touch: touch}}, nil
 	}
@@ -972,6 +973,23 @@ func runMap(data json.RawMessage) vh.Verdict {
 		}
 	default:
 		return vh.Fail("harness-case", "unknown fn %q", c.Fn)
+	}
+	if c.Seed%2 == 0 {
+		// the context is not fresh: a server's context has evaluated other calls before this one
+		// (a map over a native function, iterated: the function is applied through the context's VM)
+		r, err := api.EvaluateString("map (collection (pair 1 2) (pair 2 3)) verif-warm", ctx)
+		if err != nil {
+			return vh.Fail("harness-warm", "warming up the context: %v", err)
+		}
+		if col, ok := r.(b6.UntypedCollection); ok {
+			it := col.BeginUntyped()
+			for {
+				ok, err := it.Next()
+				if err != nil || !ok {
+					break
+				}
+			}
+		}
 	}
 	obs := mapObs{Yielded: []int{}}
 	var wrong string
